@@ -39,7 +39,7 @@ CLAIMED: dict[str, tuple[str, str, str, str]] = {
     "C07": (
         "Lean 4 proof of the white-box simplifier model (mutual fuel recursion with explicit detect_recursion stack): refinement to an abstract leaf semantics, leaf facts discharged per fragment + structural differential correspondence (model vs real intersect/union/invert) + truth oracle on environment grids",
         "Machine-checked: intersect/union/invert, intersection()/union(), MultiMarker.of/MarkerUnion.of incl. the `while old != new` fix-point loop, intersect_simplify/union_simplify, cnf/dnf and the RecursionError fallbacks are truth-preserving for EVERY fuel, stack, operand and environment relative to two leaf facts (marker equality => equal truth; a successful _merge_single_markers is the exact conjunction/disjunction); these facts are DISCHARGED, so that `intersect_union_sound_full`, `invert_sound_full`, `empty_any_full` hold with no unproved hypothesis on the full comparison-operator domain: string variables (==/!= on plain values incl. values such as inotify/interix, and the atomic multi/union leaves merges build), extra, python_version \"X.Y\", python_full_version \"X.Y.Z\" incl. the python_version<->python_full_version pairing under python_version = major.minor, platform_release release numbers; inversion additionally on in/not in lists and reversed operands via agreement with the reference evaluator. The universal statement is proved FALSE on the known finding (`not in` united with `not in` -> Any). The model mirrors markers.py branch by branch and agrees structurally (tree, text, flags, truth vectors, error class) with the real code on every generated pair, incl. the complete python_version x python_version operator/adjacent-value universe.",
-        TB + "No unproved hypothesis on: string variables with ==, !=, \"v\" in, \"v\" not in outside the decidable class ncClash (proved exact: notin_union_boundary = the known finding); extra ==/!=; python_version X.Y with the seven operators incl. ~= and in/not in lists of X.Y tokens; python_full_version X.Y.Z with the seven operators and in/not in lists of X.Y (= X.Y.*, poetry's reading) and X.Y.Z tokens; the python_version/python_full_version pairing with lists on either side (`PairCtxM`: a merged list marker is returned as merged since repo fix d9aa4ee); platform_release release numbers; final-release interpreters (`intersect_union_sound_lists_both`, `invert_sound_lists_both`). Outside (listed with one witness per class in the doc comment of C07_leaf_facts_full_statement): other literal shapes, list tokens with one or four+ components, ===, inversion of extra atomic unions with repeated values. A call-history stream runs respelled / exchanged operands back to back without resetting the memo tables (the other streams reset them per case; C20 owns cache transparency); per-request clocks on both sides (counted, never a verdict).",
+        TB + "No unproved hypothesis on: string variables with ==, !=, \"v\" in, \"v\" not in outside the decidable class ncClash (proved exact: notin_union_boundary = the known finding); extra ==/!=; python_version X.Y with the seven operators incl. ~= and in/not in lists of X.Y tokens; python_full_version X.Y.Z with the seven operators and in/not in lists of X.Y (= X.Y.*, poetry's reading) and X.Y.Z tokens; the python_version/python_full_version pairing with lists on either side (`PairCtxM`: a merged list marker is returned as merged since repo fix d9aa4ee); platform_release release numbers; final-release interpreters (`intersect_union_sound_lists_both`, `invert_sound_lists_both`). Outside (listed with one witness per class in the doc comment of C07_leaf_facts_full_statement): other literal shapes, python_full_version list tokens with four+ components, === (one-component python_full_version list tokens `3` = `3.*` and inversion of extra atomic unions with repeated values are now proved: `invert_sound_repeated_extras`). A call-history stream runs respelled / exchanged operands back to back without resetting the memo tables (the other streams reset them per case; C20 owns cache transparency); per-request clocks on both sides (counted, never a verdict).",
         "DESIGN.md §4 C07",
     ),
     "C10": (
@@ -62,7 +62,7 @@ CLAIMED: dict[str, tuple[str, str, str, str]] = {
     "C13": (
         "Lean 4 proof: unconditional CNF/DNF shape theorems, character-level print/parse round trip, meaning preservation on the full comparison-operator domain + structural differential correspondence + re-parse by poetry-core and by the reference parser",
         "Machine-checked, unconditional (every fuel, stack, input): cnf/dnf results have the promised shape (non-empty compounds); `_merge_single_markers` yields Any/Empty/leaf; character-level `parseText (text t) = t` for all lexable trees and the token-level round trip; `__str__` is the text of a grammar tree that `_compact_markers` reads back with the same meaning (parenthesisation vs precedence). On the full comparison-operator domain with quotable values (`print_parse_full`, `algebra_print_parse_full`): results of intersect/union print, parse back and rebuild with the same meaning, and cnf/dnf preserve meaning (C07's discharged leaf facts); agreement with Spec.Pep508 through C06. Every run re-parses every result text by poetry-core and by packaging and re-evaluates it on the environment sample.",
-        TB + "The domain now includes ~= leaves, the four-operator string fragment and version lists on both python variables (`print_parse_four_operators`, `print_parse_lists_both`), and ==/!= values that hold a double quote or a backslash and no single quote, printed in single quotes (`print_parse_quotes`, `print_parse_chars_quotes`; reversed-operand values stay quote-free). Every result text is also EVALUATED by the reference, not only accepted. Outside the domain the meaning theorems stay relative to the leaf facts; listed classes pfv-list-two-component, notin-union-notin-any, empty-literal-misread; a call-history stream runs respelled operands back to back without resetting the memo tables; per-request clocks (counted).",
+        TB + "The domain now includes ~= leaves, the four-operator string fragment and version lists on both python variables (`print_parse_four_operators`, `print_parse_lists_both`), and ==/!= values that hold a double quote or a backslash and no single quote, printed in single quotes (`print_parse_quotes`, `print_parse_chars_quotes`, and for reversed operands `print_parse_quotes_reversed`). Every result text is also EVALUATED by the reference, not only accepted. Outside the domain the meaning theorems stay relative to the leaf facts; listed classes pfv-list-two-component, notin-union-notin-any, empty-literal-misread; a call-history stream runs respelled operands back to back without resetting the memo tables; per-request clocks (counted).",
         "DESIGN.md §4 C13",
     ),
     "C17": (
@@ -148,7 +148,7 @@ CLAIMED: dict[str, tuple[str, str, str, str]] = {
         "the real `allows` (`C05_regular_partial`), incl. the difference merge walks and `_inverted`. Outside that setting the union-level "
         "results stay `_partial` (full statements kept as `def …_full_statement`). The model mirrors the code branch by branch and "
         "is compared structurally (text, dump, flags, membership on regular AND irregular probes) on every run.",
-        TB + "list.sort modelled as stable insertion sort; one known finding (Version ∩ range with local lower bound) proved as a counterexample theorem. Beyond the regular setting: intersect of non-union operands is exact on ALL versions for half-open ranges (the shape of ^, ~, ~=, ==V.*, >=V,<W) and for members over final versions, and at every probe regular for exclusive-lower / inclusive-upper ends (counterexample for the complement); union-level operations are exact in the regular setting; beyond it VersionUnion.of and union ∩ are exact at every probe fine for the end shapes and on all versions for half-open members with unstable lower ends (every ==V.* disjunction); union ∪ too (`union_at_probe`); the intersect walk equals the pairwise non-empty member intersections in order for members of ANY lengths (`intersect_members_eq_pairwise`: the equation the seeded count-threshold change C05-4 breaks); range − range is exact at every probe on half-open, unstable-ended, non-local ranges (`halfopen_dev_difference_exact`, class closed under difference; `counterexample_difference_stable_end` marks the boundary: the adjacent-union-gap family on the difference path); range − union, union − anything and Version members inside unions remain under the regular setting; for stable adjacent ends the expectation is false: `^2 || ^3` merges to `>=2,<4` and admits 3.dev0 (counterexample_union_of_adjacent_gap = the listed class adjacent-union-gap).",
+        TB + "list.sort modelled as stable insertion sort; one known finding (Version ∩ range with local lower bound) proved as a counterexample theorem. Beyond the regular setting: intersect of non-union operands is exact on ALL versions for half-open ranges (the shape of ^, ~, ~=, ==V.*, >=V,<W) and for members over final versions, and at every probe regular for exclusive-lower / inclusive-upper ends (counterexample for the complement); union-level operations are exact in the regular setting; beyond it VersionUnion.of and union ∩ are exact at every probe fine for the end shapes and on all versions for half-open members with unstable lower ends (every ==V.* disjunction); union ∪ too (`union_at_probe`); the intersect walk equals the pairwise non-empty member intersections in order for members of ANY lengths (`intersect_members_eq_pairwise`: the equation the seeded count-threshold change C05-4 breaks); range − range is exact at every probe on half-open, unstable-ended, non-local ranges (`halfopen_dev_difference_exact`, class closed under difference; `counterexample_difference_stable_end` marks the boundary: the adjacent-union-gap family on the difference path); ∩ and VersionUnion.of with Version members inside unions are exact at the probe whenever they return, without the regular setting (`intersect_at_probe_points`, `union_of_at_probe_points`); open: sortedness / totality of VersionUnion.of on mixed members, range − union and union − anything at a probe; for stable adjacent ends the expectation is false: `^2 || ^3` merges to `>=2,<4` and admits 3.dev0 (counterexample_union_of_adjacent_gap = the listed class adjacent-union-gap).",
         "DESIGN.md §4 C05",
     ),
     "C09": (
